@@ -145,3 +145,80 @@ theorem sepText_length (more : List (Bytes × Bytes × Bytes)) : more.length ≤
     omega
 
 end GGV.Model.Grammar
+
+/-! ## soundness: what the list recogniser returns is a decomposition of the line -/
+namespace GGV.Model.Grammar
+open GGV.Model
+
+theorem parseId_some (k : IdClass) (s id rest : Bytes) (h : parseId k s = some (id, rest)) :
+    s = id ++ rest ∧ ValidId k id := by
+  refine ⟨?_, parseId_valid k s id rest h⟩
+  cases s with
+  | nil => simp [parseId] at h
+  | cons b r =>
+    unfold parseId at h
+    by_cases hb : k.start b = true
+    · simp only [hb, if_true, Option.some.injEq, Prod.mk.injEq] at h
+      obtain ⟨rfl, rfl⟩ := h
+      simp only [List.cons_append, List.cons.injEq, true_and]
+      exact (spanP_append k.rest r).symm
+    · simp [hb] at h
+
+theorem parseSep_some (k : IdClass) (s id rest : Bytes) (h : parseSep k s = some (id, rest)) :
+    ∃ a b, AllWs a ∧ AllWs b ∧ s = a ++ 44 :: (b ++ (id ++ rest)) ∧ ValidId k id := by
+  unfold parseSep at h
+  split at h
+  · rename_i r hr
+    obtain ⟨a, ha, hs, _⟩ := dropWs_spec s
+    obtain ⟨b, hb, hr2, _⟩ := dropWs_spec r
+    obtain ⟨e, hv⟩ := parseId_some k _ id rest h
+    refine ⟨a, b, ha, hb, ?_, hv⟩
+    rw [hs, hr, hr2, e]
+  · simp at h
+
+theorem chain_longest (k : IdClass) : ∀ (fuel : Nat) (id0 r0 : Bytes) (names : List Bytes),
+    longestAccepted (chain k fuel id0 r0) = some names →
+    ∃ more trail, WfItems k more ∧ acceptAfter trail = true ∧ r0 = sepText more ++ trail ∧
+      names = id0 :: more.map (·.2.2) := by
+  intro fuel
+  induction fuel with
+  | zero =>
+    intro id0 r0 names h
+    simp only [chain, longestAccepted] at h
+    split at h
+    · rename_i hacc
+      simp only [Option.some.injEq] at h
+      exact ⟨[], r0, by intro x hx; simp at hx, hacc, by simp [sepText], by simp [h.symm]⟩
+    · simp at h
+  | succ n ih =>
+    intro id0 r0 names h
+    unfold chain at h
+    split at h
+    · rename_i id' r' hs
+      simp only [longestAccepted] at h
+      split at h
+      · rename_i ns hns
+        simp only [Option.some.injEq] at h
+        obtain ⟨more', trail, hw, hacc, hr, hn⟩ := ih id' r' ns hns
+        obtain ⟨a, b, ha, hb, e, hv⟩ := parseSep_some k r0 id' r' hs
+        refine ⟨(a, b, id') :: more', trail, ?_, hacc, ?_, ?_⟩
+        · intro x hx
+          simp only [List.mem_cons] at hx
+          rcases hx with rfl | hx
+          · exact ⟨ha, hb, hv⟩
+          · exact hw x hx
+        · rw [e, hr]; simp [sepText, List.append_assoc]
+        · rw [← h, hn]; simp
+      · split at h
+        · rename_i hacc
+          simp only [Option.some.injEq] at h
+          exact ⟨[], r0, by intro x hx; simp at hx, hacc, by simp [sepText], by simp [h.symm]⟩
+        · simp at h
+    · simp only [longestAccepted] at h
+      split at h
+      · rename_i hacc
+        simp only [Option.some.injEq] at h
+        exact ⟨[], r0, by intro x hx; simp at hx, hacc, by simp [sepText], by simp [h.symm]⟩
+      · simp at h
+
+end GGV.Model.Grammar
